@@ -442,6 +442,121 @@ Example C05_stats_gated_cycle_present :
 Proof. exact stats_gated_cycle_present. Qed.
 Print Assumptions C05_stats_gated_cycle_present.
 
+(** * Round 5: stall-freedom (Proofs/ConcLive.v, LockTableLive.v)
+
+    "Never stalls DNS serving".  The theorems above are safety statements (no
+    race, no deadlock).  A thread of the machine is a FINITE list of events,
+    so every step consumes something and no scheduler can keep the machine
+    running for ever; no fairness assumption is needed.  [stall_free s0]: from
+    every reachable state, every run is bounded by the events left, every run
+    that cannot be extended ends with ALL threads through their programs
+    (every acquisition was granted, every critical section left), and such a
+    run exists. *)
+From AGH Require Import Proofs.ConcLive Proofs.LockTableLive.
+From AGH Require Base.Run Model.Rewrites Proofs.Rewrites.
+
+Theorem C05_no_deadlock_stall_free :
+  forall s0, (forall s, reachable s0 s -> ~ deadlocked s) -> stall_free s0.
+Proof. exact no_deadlock_stall_free. Qed.
+Print Assumptions C05_no_deadlock_stall_free.
+
+(** The three clauses of [stall_free], spelt out. *)
+Theorem C05_stall_free_unfolded :
+  forall s0, stall_free s0 ->
+  forall s, reachable s0 s ->
+    (forall n s', steps n s s' -> n + measure s' <= measure s) /\
+    (forall n s', steps n s s' -> stuck s' -> forall th, In th (threads s') -> rest th = []) /\
+    (exists n s', steps n s s' /\ forall th, In th (threads s') -> rest th = []).
+Proof. exact (fun s0 H => H). Qed.
+Print Assumptions C05_stall_free_unfolded.
+
+(** The length of any run from the start: at most twice the number of events
+    plus the number of threads. *)
+Theorem C05_run_length_bound :
+  forall progs n s', steps n (init progs) s' ->
+    n <= list_sum (map (fun p => 2 * List.length p + 1) progs).
+Proof.
+  exact (fun progs n s' H =>
+    Nat.le_trans _ _ _ (Nat.le_add_r n (measure s'))
+      (eq_ind _ (fun m => n + measure s' <= m) (steps_bounded n _ s' H) _ (measure_init progs))).
+Qed.
+Print Assumptions C05_run_length_bound.
+
+Theorem C05_ranked_stall_free :
+  forall (rank : lock -> nat) (progs : list (list event)),
+    Forall (fun p => ranked rank [] p = true) progs -> stall_free (init progs).
+Proof. exact ranked_stall_free. Qed.
+Print Assumptions C05_ranked_stall_free.
+
+Theorem C05_gated_stall_free : forall rank0 rkd sites,
+  gated_with rank0 rkd sites = true ->
+  forall progs, Forall (fun p => conforms_sites sites [] p = true) progs ->
+  stall_free (init progs).
+Proof. exact gated_stall_free. Qed.
+Print Assumptions C05_gated_stall_free.
+
+(** Instance on the sites regenerated from the current source. *)
+Theorem C05_no_stall_gated : forall progs,
+  Forall (fun p => conforms_sites checked_acquisitions [] p = true) progs ->
+  stall_free (init progs).
+Proof. exact no_stall_gated. Qed.
+Print Assumptions C05_no_stall_gated.
+
+Theorem C05_current_source_stall_free_now :
+  if nothing_listed known_keys then
+    forall progs, Forall (fun p => conforms_sites acquisitions [] p = true) progs ->
+    stall_free (init progs)
+  else True.
+Proof. exact current_source_stall_free_now. Qed.
+Print Assumptions C05_current_source_stall_free_now.
+
+(** Non-vacuity. *)
+Example C05_stall_free_example :
+  let progs := [[Acq "a" W; Acq "b" R; Rd "f"; Rel "b" R; Rel "a" W];
+                [Acq "a" R; Acq "b" W; Rel "b" W; Rel "a" R]]%string in
+  stall_free (init progs) /\ measure (init progs) = 20.
+Proof. exact stall_free_example. Qed.
+Print Assumptions C05_stall_free_example.
+
+Example C05_stats_threads_never_stall :
+  stall_free (init [p_stats_flush; p_stats_read; p_stats_read]).
+Proof. exact stats_threads_never_stall. Qed.
+Print Assumptions C05_stats_threads_never_stall.
+
+(** The premise hidden in "a thread is a finite list that releases what it
+    took" is needed: a reader of confMu that never releases (a request that
+    does not come back from its critical section: seeded change C05-I), an
+    admin write, and the next reader is blocked behind the pending writer:
+    nothing can move and two threads are not through. *)
+Example C05_holder_never_releases_stalls :
+  exists s,
+    reachable (init [[Acq "confMu" R];
+                     [Acq "confMu" W; Wr "rewrites"; Rel "confMu" W];
+                     [Acq "confMu" R; Rd "rewrites"; Rel "confMu" R]]%string) s /\
+    stuck s /\ ~ finished s /\ deadlocked s /\
+    threads s = [TH false [];
+                 TH true [Acq "confMu" W; Wr "rewrites"; Rel "confMu" W];
+                 TH false [Acq "confMu" R; Rd "rewrites"; Rel "confMu" R]]%string.
+Proof. exact holder_never_releases. Qed.
+Print Assumptions C05_holder_never_releases_stalls.
+
+(** That premise, for the one loop of the request path whose bound depends on
+    admin data (the CNAME chase of processRewrites, run under confMu.RLock),
+    is C06's termination theorem, restated here so that the dependency is
+    explicit: the chase returns for EVERY table (cycles of any shape,
+    wildcard-only ones included), every name and every type.  The tie of that
+    model to the code is C06's; the C05 hostile-data harness searches the same
+    on the running server (a query without a result is confirmed by a replay
+    on a fresh server). *)
+Theorem C05_rewrite_chase_returns :
+  forall sort, (forall l, Permutation.Permutation (sort l) l) ->
+  forall (tbl : list AGH.Model.Rewrites.entry) (host : AGH.Base.Run.bytes) (qt : BinNums.N),
+    AGH.Model.Rewrites.process_rewrites sort tbl host qt <> None /\
+    forall enabled, AGH.Model.Rewrites.check_host sort enabled tbl host qt <> None.
+Proof. exact AGH.Proofs.Rewrites.terminates. Qed.
+Print Assumptions C05_rewrite_chase_returns.
+
+
 (** * Round 4: lease names that flow from the admin API into DNS answers
 
     (The DHCPv4 model is imported only here: its [state], [step], [event],
